@@ -306,6 +306,8 @@ def compare_legs(run, tmp):
         while src.w < 10 or src.h < 10 or src.px == ref.px:
             src, ref = rasters.pair_geometry(rng, 'dyadic', 'auto', max_src=22, margin=(1, 2))
         nb = rng.choice([1, 2, 3])
+        if i % 5 == 1 and (i // 5) % 2 == 0:
+            nb = rng.choice([2, 3, 4])      # fuse --compare with band selections needs several bands
         s = np.array([[[rng.randint(20, 200) for _ in range(src.w)] for _ in range(src.h)] for _ in range(nb)], float)
         r = np.array([[[rng.randint(30, 150) for _ in range(ref.w)] for _ in range(ref.h)] for _ in range(nb)], float)
         r2 = np.array([[[rng.randint(30, 150) for _ in range(ref.w)] for _ in range(ref.h)] for _ in range(nb)], float)
@@ -365,11 +367,27 @@ def compare_legs(run, tmp):
                 args += ['-c', str(cf)]
             else:
                 args += flags
+            fsb = frb = fcb = None
+            if kind == 'fuse-flag' and nb > 1 and (i // 5) % 2 == 0:
+                # band selections: the fusion's source / reference bands, and *other* reference bands for the comparison
+                kk = rng.randint(1, nb - 1) if nb > 2 else 1
+                fsb, frb = rng.sample(range(1, nb + 1), kk), rng.sample(range(1, nb + 1), kk)
+                fcb = rng.sample(range(1, nb + 1), kk)
+                while fcb == frb:
+                    fcb = rng.sample(range(1, nb + 1), kk)
+                for b in fsb:
+                    args += ['-sb', str(b)]
+                for b in frb:
+                    args += ['-rb', str(b)]
+                for b in fcb:
+                    args += ['-cb', str(b)]
+                args += ['-f']
+                case['bands'] = dict(src=fsb, ref=frb, cmp=fcb)
             args += ['--compare'] + ([str(other)] if kind == 'fuse-file' else [])
             if kind != 'fuse-file':
                 # `--compare` without a value must not swallow the next token: keep it last
                 pass
-            expect = [dict(src=str(pair.src_path), ref=str(cmp_ref), sb=None, rb=None, force=False), None]
+            expect = [dict(src=str(pair.src_path), ref=str(cmp_ref), sb=fsb, rb=fcb, force=bool(fsb)), None]
         del calls[:]
         RasterCompare.process, RasterCompare.__init__ = rec_process, rec_init
         try:
@@ -388,7 +406,7 @@ def compare_legs(run, tmp):
             continue
         if kind.startswith('fuse'):
             corr = sorted((d / 'out').glob('*.tif'))
-            expect[1] = dict(src=str(corr[0]) if corr else None, ref=expect[0]['ref'], sb=None, rb=None, force=False)
+            expect[1] = dict(src=str(corr[0]) if corr else None, ref=expect[0]['ref'], sb=None, rb=expect[0]['rb'], force=expect[0]['force'])
         if len(calls) != len(expect):
             run.fail(case, f'the command made {len(calls)} comparisons, expected {len(expect)}', signature=dict(kind='cli-compare'))
             continue
